@@ -159,31 +159,63 @@ def sumBytes : List (Nat × Int) → Int
 /-- size on disk -/
 def FileRec.size (f : FileRec) : Int := f.initial + sumBytes f.msgs
 
-/-- the sink's view of its files: closed ones (oldest first), the current one, its creation time -/
+/-- the sink's view of its files: closed ones (oldest first), the current one, and what the file
+system remembers of the current one's age: the persisted creation tag (`user.loguru_crtime`, or
+the dict of a patched harness) if one was ever written, and the time of its last modification -/
 structure Sink where
   states : List (Option Int)
   closed : List FileRec
   cur : FileRec
-  ctime : Int
+  tag : Option Int
+  mtime : Int
   next : Nat
 
+/-- `get_ctime(current file)`: the persisted tag, else the modification time -/
+def Sink.creation (s : Sink) : Int :=
+  match s.tag with
+  | some v => v
+  | none => s.mtime
+
+/-- did some `RotationTime` compute its first limit during this call?  (then it also executed
+`set_ctime(filepath, creation_time)`) -/
+def initialised (before after : List (Option Int)) : Bool :=
+  (List.zip before after).any fun p => p.1.isNone && p.2.isSome
+
 /-- `FileSink.write(message)`: ask the rotation function first (`file.tell()` after `seek(0, 2)` is
-the size of the current file); on true close the file and open a fresh one (created "now" = the
-record's instant under the frozen clock), then append -/
+the size of the current file); on true close the file and open a fresh one, created "now" (= the
+record's instant under the frozen clock) and – `Gen.newFileTaggedWithNow` – tagged with that instant;
+then append (which moves the modification time) -/
 def Sink.write (ls : List Leaf) (s : Sink) (m : Msg) : Sink :=
-  let x : CallIn := { ctime := s.ctime, stamp := m.stamp, bytes := m.bytes, chars := m.chars, tell := s.cur.size }
+  let c := s.creation
+  let x : CallIn := { ctime := c, stamp := m.stamp, bytes := m.bytes, chars := m.chars, tell := s.cur.size }
   let r := groupCall ls s.states x
   if r.1 then
     { states := r.2, closed := s.closed ++ [s.cur], cur := { initial := 0, msgs := [(s.next, m.disk)] },
-      ctime := m.stamp.utc, next := s.next + 1 }
+      tag := if Gen.newFileTaggedWithNow then some m.stamp.utc else none, mtime := m.stamp.utc, next := s.next + 1 }
   else
     { states := r.2, closed := s.closed, cur := { s.cur with msgs := s.cur.msgs ++ [(s.next, m.disk)] },
-      ctime := s.ctime, next := s.next + 1 }
+      tag := if initialised s.states r.2 then some c else s.tag, mtime := m.stamp.utc, next := s.next + 1 }
 
 def Sink.init (ls : List Leaf) (ctime size : Int) : Sink :=
-  { states := initStates ls, closed := [], cur := { initial := size, msgs := [] }, ctime := ctime, next := 0 }
+  { states := initStates ls, closed := [], cur := { initial := size, msgs := [] }, tag := none, mtime := ctime,
+    next := 0 }
+
+/-- `logger.remove()` followed by `logger.add()` of the same path and rotation (a process restart):
+the rotation functions are new, the files and what the file system remembers stay -/
+def Sink.restart (ls : List Leaf) (s : Sink) : Sink := { s with states := initStates ls }
+
+/-- one step of a sink history -/
+inductive SinkOp where
+  | msg (m : Msg)
+  | restart
+
+def Sink.step (ls : List Leaf) (s : Sink) : SinkOp → Sink
+  | .msg m => Sink.write ls s m
+  | .restart => Sink.restart ls s
 
 def Sink.run (ls : List Leaf) (s : Sink) (ms : List Msg) : Sink := ms.foldl (Sink.write ls) s
+
+def Sink.runOps (ls : List Leaf) (s : Sink) (ops : List SinkOp) : Sink := ops.foldl (Sink.step ls) s
 
 /-- all files, oldest first -/
 def Sink.files (s : Sink) : List FileRec := s.closed ++ [s.cur]
